@@ -111,6 +111,18 @@ def lattice(j, cases):
                     if ok:
                         ok = float(np.max(np.abs(np.asarray(fn(u), dtype=float) - u))) <= TOL
                     check(j, ok, site, feat, "not-unit-or-direction-changed-or-not-idempotent", {"v": c["v"], "scale": s, "got": u.tolist()}, cid)
+                # the vector in every container form (list, tuple, row and column arrays): same unit vector
+                vs = v * s
+                for fname, arg in (("list", vs.tolist()), ("tuple", tuple(vs.tolist())), ("row", vs.reshape(1, -1)), ("column", vs.reshape(-1, 1))):
+                    for site, fn in (("base.unitvec", lambda x: b.unitvec(x)), ("base.unitvec_norm", lambda x: b.unitvec_norm(x)[0])):
+                        cidf = (site, fname)
+                        uf = guard(j, site, feat + ";" + fname, {"v": c["v"], "scale": s, "form": fname}, cidf, lambda: fn(arg))
+                        if uf is None:
+                            check(j, False, site, feat + ";" + fname, "returned-None", {"v": c["v"], "scale": s, "form": fname}, cidf)
+                            continue
+                        uf = np.asarray(uf, dtype=float).ravel()
+                        okf = uf.shape == (len(v),) and float(np.max(np.abs(uf - v / nrm))) <= TOL
+                        check(j, okf, site, feat + ";" + fname, "not-unit-or-direction-changed", {"v": c["v"], "scale": s, "form": fname, "got": uf.tolist()}, cidf)
                 cid = ("base.unitvec_norm(norm)", feat)
                 r = guard(j, "base.unitvec_norm", feat, {"v": c["v"]}, cid, lambda: b.unitvec_norm(v * s))
                 if r is not None:
